@@ -244,6 +244,11 @@ def run_routine(case, forced=None):
     work plan still do everything else)."""
     sites, method, sched, weather = build_routine(case)
     static = planner_static(sched)
+    if forced is not None and not isinstance(forced, dict):
+        fd = {}
+        for k, sid, st in forced:  # list of [day, site, state]; everything not listed completes
+            fd.setdefault(int(k), {})[int(sid)] = st
+        forced = fd
     start = D(case["start"])
     wm = case.get("weather") or []
     for k, w in enumerate(wm):
@@ -322,7 +327,14 @@ def _forced_deploy(wp, outcome, cur, method):
             rep.survey_completion_date = cur
             rep.survey_complete = True
             rep.survey_in_progress = False
+            rep.time_surveyed_current_day = pl.get_site().get_method_survey_time(METHOD) - rep.time_surveyed
             rep.time_surveyed = pl.get_site().get_method_survey_time(METHOD)
+        elif st == "P":
+            if not rep.survey_in_progress:
+                rep.survey_start_date = cur
+            rep.survey_in_progress = True
+            rep.time_surveyed_current_day = 1
+            rep.time_surveyed += 1
         wp.add_survey_report(rep, pl)
 
 
